@@ -29,6 +29,9 @@ MARKETS = {
     'blankstart': {'AAA': ('falling', '41.37'), 'BBB': ('zigzag', '103.11'), 'CCC': ('rising', '17.93')},
     # bars with zero traded volume (halted / illiquid days) are bars like any other
     'zerovol': {'AAA': ('rising', '41.37'), 'BBB': ('gapdown', '103.11'), 'CCC': ('zigzag', '17.93')},
+    # a second data source (listed after the first) carries AAA at other prices and with a LONGER file
+    'twosrc': {'AAA': ('rising', '41.37'), 'BBB': ('zigzag', '103.11'), 'CCC': ('falling', '17.93'),
+               'AAA@2': ('falling', '77.77'), 'CCC@2': ('rising', '55.05')},
 }
 
 
@@ -40,6 +43,9 @@ def base_market(name):
         rows[i] = (rows[i][0], None, rows[i][2])         # a missing open
         rows2 = m['CCC']
         rows2[i + 1] = (rows2[i + 1][0], rows2[i + 1][1], None)   # a missing close
+    if name == 'twosrc':
+        # the first source's AAA file stops three days before the window ends; the second source's goes on
+        m['AAA'] = m['AAA'][:-3]
     if name == 'zerovol':
         k = len(PRE)
         m['BBB'] = [(d, o, c, 0 if k + 2 <= i <= k + 4 else 1000) for i, (d, o, c) in enumerate(m['BBB'])]
@@ -139,8 +145,13 @@ def prefix(obs, cut):
 
 
 def run_world(cfg, market, directory):
-    for f in __import__('os').listdir(directory):
-        __import__('os').unlink(__import__('os').path.join(directory, f))
+    import os
+    for f in os.listdir(directory):
+        pth = os.path.join(directory, f)
+        if os.path.isdir(pth):
+            shutil.rmtree(pth, ignore_errors=True)
+        else:
+            os.unlink(pth)
     sl.write_market(directory, market)
     handler, _ = sl.load_handler(directory, market)
     return handler
@@ -203,7 +214,7 @@ def item_eval(item):
 
 def items(tier):
     cfgs = configs(tier)
-    markets = ['m0', 'late', 'hole', 'gap', 'blankstart', 'zerovol'] if tier == 'quick' else list(MARKETS)
+    markets = ['m0', 'late', 'hole', 'gap', 'blankstart', 'zerovol', 'twosrc'] if tier == 'quick' else list(MARKETS)
     rewrites = ['remove', 'x3', 'reverse', 'blank'] if tier == 'quick' else REWRITES
     cuts = [c.isoformat() for c in CUTS]
     size = 10 if tier == 'quick' else 25
